@@ -235,11 +235,14 @@ def run_session(s):
               "cfg": [c.get("backend", ""), c.get("dtype", ""), c.get("layout", "")],
               # input family: "std" = inside the Supported table; "nonfinite" = rasters with NaN, +inf and -inf cells for EVERY
               # function (a function may refuse them: outside its domain, not compared with the Supported table)
-              "fam": "nonfinite" if c.get("nonfinite") else "std"}
+              # "degen" = degenerate values (all NaN / constant / zero) or shapes (1xN, Nx1, 2x2, 1x1): may be refused too
+              "fam": "nonfinite" if c.get("nonfinite") else ("degen" if (c.get("degen") or c.get("hw")) else "std")}
         if c.get("args") is None:
+            hw = c.get("hw") or [A.H, A.W]
             ins = A.build_inputs(entry, c["dtype"], c.get("layout", "C"), c.get("backend", "numpy"), c.get("seed", 0),
-                                 finite=bool(c.get("finite")), p=p, single_chunk=bool(c.get("single_chunk")),
-                                 nonfinite=bool(c.get("nonfinite")), attrs_family=int(c.get("attrs_family", 0)))
+                                 h=hw[0], w=hw[1], finite=bool(c.get("finite")), p=p, single_chunk=bool(c.get("single_chunk")),
+                                 nonfinite=bool(c.get("nonfinite")), attrs_family=int(c.get("attrs_family", 0)),
+                                 degen=c.get("degen"))
             names = []
             for role, x, _m in ins:
                 nm = "%d_%s" % (k, role)
